@@ -96,6 +96,23 @@ static void phase(int n, const vector<Cfg> &cfgs, const char *label) {
         for (auto &c : cfgs) { if (!ctx.next()) continue; ctx.count("states"); ctx.sample(gstr(n, es) + " " + cfg_str(c)); if ((int)es.size() >= n) ctx.count("nontrivial"); run_one(n, es, c); ctx.done_case(); }
     }
 }
+
+// cores with hanging trees: a small cyclic core (triangle, 4-cycle, 4-cycle with a chord, 5-cycle) to which t further nodes are attached
+// one after the other, each to ANY earlier node -- every shape of hanging forest with t nodes on every attachment point.  This is the
+// class that exercises peeling, tree placement in faces and the final aspect-ratio rotation with trees growing in different directions.
+static void phase_core_trees(int tmax, const vector<Cfg> &cfgs) {
+    vector<pair<int, EL>> cores = {{3, {{0, 1}, {1, 2}, {0, 2}}}, {4, {{0, 1}, {1, 2}, {2, 3}, {0, 3}}}, {4, {{0, 1}, {1, 2}, {2, 3}, {0, 3}, {0, 2}}}, {5, {{0, 1}, {1, 2}, {2, 3}, {3, 4}, {0, 4}}}};
+    ctx.phase(mcx::fmt("cores {C3, C4, C4+chord, C5} with every hanging forest of 1..%d further nodes (each attached to any earlier node) x %zu configurations", tmax, cfgs.size()));
+    for (auto &core : cores) for (int t = 1; t <= tmax - (core.first - 3); t++) {
+        vector<int> par(t, 0);
+        while (true) {
+            if (ctx.stopped()) return;
+            int n = core.first + t; EL es = core.second; for (int k = 0; k < t; k++) es.push_back({par[k], core.first + k});
+            for (auto &c : cfgs) { if (!ctx.next()) continue; ctx.count("states"); ctx.count("nontrivial"); ctx.sample(gstr(n, es) + " " + cfg_str(c), 1); run_one(n, es, c); ctx.done_case(); }
+            int k = t - 1; while (k >= 0 && ++par[k] == core.first + k) { par[k] = 0; k--; } if (k < 0) break;
+        }
+    }
+}
 int main(int argc, char **argv) {
     ctx.init(argc, argv); ctx.viol_cap = 1000000;   // every failing input is recorded (some known findings list specific inputs)
     bool T = ctx.thorough();
@@ -104,6 +121,7 @@ int main(int argc, char **argv) {
     vector<Cfg> mid; for (int st = 0; st < 3; st++) for (int sz = 0; sz < 2; sz++) for (int aca = 0; aca < 2; aca++) mid.push_back({st, sz, (bool)aca, true, st, 0});
     phase(2, full, "all"); phase(3, full, "all"); phase(4, full, "all");
     phase(5, links, "link mode x near-align, circle start");
+    { vector<Cfg> ct; for (int aca = 0; aca < 2; aca++) for (int as = 0; as < 3; as++) ct.push_back({0, 0, (bool)aca, true, as, 0}); phase_core_trees(T ? 5 : 4, ct); }
     if (T) { phase(5, mid, "starts x sizes x link mode"); phase(6, {{0, 0, true, true, 0, 0}, {0, 0, false, true, 0, 0}}, "link mode, circle start"); phase(6, {{1, 1, true, true, 1, 0}, {2, 1, false, false, 2, 0}}, "coincident/line starts, mixed sizes"); }
     return ctx.finish();
 }
